@@ -35,14 +35,18 @@ theorem const_interval : Gen.idleCleanupIntervalNs = 1000000000 := by decide
   then `ExitFunc` (`exitB`); `initConn` holds connLock across the closed test, the dial and `go receiveLoop`
   (`feedA`), and on a failed dial unlocks BEFORE calling CloseWithErr (`rlCloseA` is a separate step).
   A test dropped from a lock region, a call moved across an unlock, a changed sweep condition or a
-  different id in the upstream message changes these strings and the obligation fails here. -/
+  different id in the upstream message changes these strings and the obligation fails here.
+  The override/original-address bookkeeping and the decision cache are C08's part of these functions and
+  are left out of these strings (they are obligations of Hy.Props.C08). -/
 
 theorem skeleton_CloseWithErr : Gen.udpSkel_CloseWithErr =
     "e.connLock.Lock if(e.closed){ e.connLock.Unlock ret } set(e.closed) if(e.conn!=nil){ e.conn.Close } e.connLock.Unlock e.ExitFunc" := rfl
+theorem skeleton_FeedHead : Gen.udpSkel_FeedHead =
+    "e.Last.Set e.D.Feed if(dfMsg==nil){ ret }" := rfl
 theorem skeleton_initConn : Gen.udpSkel_initConn =
-    "e.connLock.Lock if(e.closed){ e.connLock.Unlock ret } e.DialFunc if(err!=nil){ e.connLock.Unlock e.CloseWithErr ret } set(e.conn) if(firstMsg.Addr!=actualAddr){ set(e.OverrideAddr) set(e.OriginalAddr) } go(e.receiveLoop) e.connLock.Unlock ret" := rfl
+    "e.connLock.Lock if(e.closed){ e.connLock.Unlock ret } e.DialFunc if(err!=nil){ e.connLock.Unlock e.CloseWithErr ret } set(e.conn) go(e.receiveLoop) e.connLock.Unlock ret" := rfl
 theorem skeleton_receiveLoop : Gen.udpSkel_receiveLoop =
-    "for{ e.conn.ReadFrom if(err!=nil){ e.CloseWithErr ret } e.Last.Set if(e.OriginalAddr!=\"\"){ } msg{SessionID:e.ID,Addr:rAddr} sendMessageAutoFrag if(err!=nil){ e.CloseWithErr ret } }" := rfl
+    "for{ e.conn.ReadFrom if(err!=nil){ e.CloseWithErr ret } e.Last.Set msg{SessionID:e.ID} sendMessageAutoFrag if(err!=nil){ e.CloseWithErr ret } }" := rfl
 theorem skeleton_Run : Gen.udpSkel_Run =
     "go(m.idleCleanupLoop) defer(close) defer(m.cleanup) for{ m.io.ReceiveMessage if(err!=nil){ ret } m.feed }" := rfl
 theorem skeleton_idleCleanupLoop : Gen.udpSkel_idleCleanupLoop =
